@@ -1592,7 +1592,7 @@ _g_ir_node_build_typelib (GIrNode         *node,
 	blob->readable = field->readable;
 	blob->writable = field->writable;
 	blob->reserved = 0;
-	blob->bits = 0;
+	blob->bits = field->bits;
 	if (field->offset >= 0)
 	  blob->struct_offset = field->offset;
 	else
